@@ -27,10 +27,11 @@ InvWellFormed ==
     /\ cl.kind \in {"go", "raw"} /\ cl.min \in Versions /\ cl.max \in Versions /\ cl.min <= cl.max
     /\ cl.scsv \in BOOLEAN /\ cl.ecc \in {"ok", "none", "foreign"} /\ cl.sni \in {"a", "b"}
     /\ SeqOver(cl.suites, AllSuites) /\ cl.suites # <<>> /\ SeqOver(cl.alpn, Protos)
-    /\ (cl.kind = "go" => ~cl.scsv /\ cl.ecc # "none" /\ cl.suites = InGoOrder(Range(cl.suites)))
+    /\ (cl.kind = "go" => ~cl.scsv /\ cl.ecc # "none" /\ cl.suites = InGoOrder(Range(cl.suites)) /\ "CH" \notin Range(cl.suites))
     /\ <<sv.min, sv.max>> \in SvMinMax /\ sv.cert \in {"rsa", "ecdsa"} /\ sv.prefer \in BOOLEAN
     /\ SeqOver(sv.suites, AllSuites) /\ SeqOver(sv.np, Protos)
     /\ sv.rule.on \in BOOLEAN /\ sv.rule.grade \in Grades /\ SeqOver(sv.rule.np, Protos)
+    /\ sv.rule.clientauth \in BOOLEAN /\ sv.rule.chacha \in BOOLEAN
 
 Emit == stage = 7 => PrintT(ToJson([id |-> IF src > 0 THEN In[src].id ELSE 0, cl |-> cl, sv |-> sv, pre |-> pre,
                                     expP |-> Allowed(cl, sv), expM |-> Mech(cl, sv)]))
